@@ -30,7 +30,7 @@ var hists = []bind.Hist{
 }
 
 func histName(h bind.Hist) string {
-	return fmt.Sprintf("pivot=%d,alt=%v,lenBetween=%v,variant=%d", h.Pivot, h.Alt, h.LenBetween, h.Variant)
+	return fmt.Sprintf("pivot=%d,alt=%v,lenBetween=%v,variant=%d,lateGrow=%v", h.Pivot, h.Alt, h.LenBetween, h.Variant, h.LateGrow)
 }
 
 type shapeCase struct {
@@ -199,6 +199,18 @@ func forEachControllerShape(r *ev.Run, f func(n *wire.N, h bind.Hist)) (shapes i
 		}
 		r.Add("histories", int64(nh))
 	})
+	// late growth: a conntrack action filled after it was attached, followed by further adds
+	for _, n := range corpus.LateGrowthShapes() {
+		if n.K == "packet_out" {
+			continue // packet-out caches its actions length at add time (C06 covers its sizes only)
+		}
+		shapes++
+		f(n, bind.Hist{})
+		f(n, bind.Hist{LateGrow: true})
+		r.Add("histories", 2)
+		r.Add("late_growth_histories", 1)
+	}
+	r.Completed("late growth: conntrack action attached bare, filled afterwards, followed by further actions (apply/write actions, also inside bundle-add)")
 	var ks []string
 	for k := range kinds {
 		ks = append(ks, k)
